@@ -93,7 +93,7 @@ type c03ObfsWorld struct {
 	gekEP  *simnet.Endpoint
 	salGot []c03Rec
 	gekGot []c03Rec
-	host   []*simnet.Endpoint
+	host   []*net.UDPAddr
 	seq    int
 }
 
@@ -113,6 +113,35 @@ func (w *c03ObfsWorld) reader(name string, c net.PacketConn, into *[]c03Rec) {
 		}
 	})
 }
+
+func (w *c03ObfsWorld) send(from *net.UDPAddr, to *simnet.Endpoint, b []byte) {
+	w.f.Inject(from, to.LocalAddr().String(), b)
+}
+
+// c03Tx is the sending socket of the canary: what is written to it appears on the fabric.
+type c03Tx struct {
+	f      *simnet.Fabric
+	addr   *net.UDPAddr
+	closed chan struct{}
+}
+
+func (c *c03Tx) ReadFrom(p []byte) (int, net.Addr, error) { <-c.closed; return 0, nil, net.ErrClosed }
+func (c *c03Tx) WriteTo(p []byte, to net.Addr) (int, error) {
+	c.f.Inject(c.addr, to.String(), p)
+	return len(p), nil
+}
+func (c *c03Tx) Close() error {
+	select {
+	case <-c.closed:
+	default:
+		close(c.closed)
+	}
+	return nil
+}
+func (c *c03Tx) LocalAddr() net.Addr                { return c.addr }
+func (c *c03Tx) SetDeadline(t time.Time) error      { return nil }
+func (c *c03Tx) SetReadDeadline(t time.Time) error  { return nil }
+func (c *c03Tx) SetWriteDeadline(t time.Time) error { return nil }
 
 func (w *c03ObfsWorld) obfuscate(plain []byte, right bool) []byte {
 	o := w.ob
@@ -162,13 +191,10 @@ func execC03Obfs(x *hysim.Run) {
 	w.reader("salamander", salConn, &w.salGot)
 	w.reader("gecko", gekConn, &w.gekGot)
 	for i := 0; i < 3; i++ {
-		ep, _ := w.f.Listen(fmt.Sprintf("10.6.6.%d", i+1), 6000+i)
-		w.host = append(w.host, ep)
+		w.host = append(w.host, &net.UDPAddr{IP: net.IPv4(10, 6, 6, byte(i+1)), Port: 6000 + i})
 	}
-	cEP1, _ := w.f.Listen("10.9.9.9", 9001)
-	cEP2, _ := w.f.Listen("10.9.9.9", 9002)
-	canSal, _ := WrapPacketConnSalamander(cEP1, w.psk)
-	canGek, _ := WrapPacketConnGecko(cEP2, opts)
+	canSal, _ := WrapPacketConnSalamander(&c03Tx{f: w.f, addr: &net.UDPAddr{IP: net.IPv4(10, 9, 9, 9), Port: 9001}, closed: make(chan struct{})}, w.psk)
+	canGek, _ := WrapPacketConnGecko(&c03Tx{f: w.f, addr: &net.UDPAddr{IP: net.IPv4(10, 9, 9, 9), Port: 9002}, closed: make(chan struct{})}, opts)
 	other := w.obfuscate(c03GeckoFrame(9, 0, 2, 3, []byte("other-vector")).B, true)
 	dropped := 0
 	for _, op := range sc.Ops {
@@ -186,13 +212,13 @@ func execC03Obfs(x *hysim.Run) {
 			v := mut.Vec{B: w.obfuscate(plain, op.Arg(1) == 0)}
 			m1, m2 := mut.Muts(op, 3)
 			in, d := mut.Apply2(x, v, other, m1, m2)
-			x.Ev("salamander datagram from %v: %s in=%s", h.LocalAddr(), d, mut.Hex(in))
+			x.Ev("salamander datagram from %v: %s in=%s", h, d, mut.Hex(in))
 			if len(in) <= smSaltLen {
 				x.Probe("too-short-for-salt")
 				dropped++
 			}
-			h.WriteTo(in, w.salEP.LocalAddr())
-			h.WriteTo(in, w.gekEP.LocalAddr())
+			w.send(h, w.salEP, in)
+			w.send(h, w.gekEP, in)
 		case "gframe":
 			v := c03GeckoFrame(uint8(op.Arg(2)), uint8(op.Arg(3)), uint8(op.Arg(4)), uint16(op.Arg(5)), mut.Fill(mut.Clamp(op.Arg(6), 0, 1200), 'g'))
 			m1, m2 := mut.Muts(op, 8)
@@ -206,8 +232,8 @@ func execC03Obfs(x *hysim.Run) {
 				in, d = w.obfuscate(plain, op.Arg(1) == 1), d1+" (plaintext "+mut.Hex(plain)+")"
 			}
 			x.Probe("gecko-hostile-frame")
-			x.Ev("gecko frame from %v: %s in=%s", h.LocalAddr(), d, mut.Hex(in))
-			h.WriteTo(in, w.gekEP.LocalAddr())
+			x.Ev("gecko frame from %v: %s in=%s", h, d, mut.Hex(in))
+			w.send(h, w.gekEP, in)
 			dropped++
 		case "gseq":
 			total := uint8(mut.Clamp(op.Arg(2), 2, 8))
@@ -220,7 +246,7 @@ func execC03Obfs(x *hysim.Run) {
 			if op.Arg(6) == 1 {
 				dup = pr.Intn(int(total))
 			}
-			x.Ev("gecko chunk set from %v id=%d total=%d order=%v hole=%d dup=%d drift=%d", h.LocalAddr(), op.Arg(1), total, order, hole, dup, op.Arg(7))
+			x.Ev("gecko chunk set from %v id=%d total=%d order=%v hole=%d dup=%d drift=%d", h, op.Arg(1), total, order, hole, dup, op.Arg(7))
 			for k, i := range order {
 				if i == hole {
 					continue
@@ -232,9 +258,9 @@ func execC03Obfs(x *hysim.Run) {
 				}
 				fr := c03GeckoFrame(uint8(op.Arg(1)), uint8(i), t, uint16(pr.Intn(40)), mut.Fill(mut.Clamp(op.Arg(3), 0, 300), byte(i)))
 				pkt := w.obfuscate(fr.B, true)
-				h.WriteTo(pkt, w.gekEP.LocalAddr())
+				w.send(h, w.gekEP, pkt)
 				if i == dup {
-					h.WriteTo(pkt, w.gekEP.LocalAddr())
+					w.send(h, w.gekEP, pkt)
 				}
 			}
 			x.Probe("gecko-hostile-frame")
@@ -242,9 +268,9 @@ func execC03Obfs(x *hysim.Run) {
 			n := mut.Clamp(op.Arg(1), 1, 40)
 			for id := 0; id < n; id++ {
 				fr := c03GeckoFrame(uint8(100+id), 0, 2, 0, []byte{1, 2, 3})
-				h.WriteTo(w.obfuscate(fr.B, true), w.gekEP.LocalAddr())
+				w.send(h, w.gekEP, w.obfuscate(fr.B, true))
 			}
-			x.Ev("%d pending first chunks from %v", n, h.LocalAddr())
+			x.Ev("%d pending first chunks from %v", n, h)
 			if n > geckoMaxPerSource {
 				x.Probe("gecko-per-source-cap")
 			}
@@ -308,9 +334,6 @@ func execC03Obfs(x *hysim.Run) {
 	gekConn.Close()
 	canSal.Close()
 	canGek.Close()
-	for _, h := range w.host {
-		h.Close()
-	}
 	if al := x.WaitTasks(10 * time.Second); len(al) > 0 && !x.Violated() {
 		x.Violate("hang", "tasks still running 10s (virtual) after the sockets were closed: %v", al)
 	}
